@@ -228,6 +228,51 @@ SwapSign(a, lab, pairs, ferm) ==
     IN IF Cardinality(bits) % 2 = 0 THEN 1 ELSE -1
 SwapGate(a, pairs, ferm) == [a EXCEPT !.ent = {<<e[1], <<SwapSign(a, e[1], pairs, ferm) * e[2][1], SwapSign(a, e[1], pairs, ferm) * e[2][2]>> >> : e \in a.ent}]
 
+(* swap gate with an explicit charge: every leg in axes (native set G) is swapped with a virtual dimension-one leg of charge q *)
+SwapChargeSign(a, lab, G, q, ferm) ==
+    LET bits == {<<k, c>> \in G \X (1..Len(Mod(a.sym))) : ferm[c] /\ lab[k][1][c] % 2 = 1 /\ q[c] % 2 = 1}
+    IN IF Cardinality(bits) % 2 = 0 THEN 1 ELSE -1
+SwapCharge(a, G, q, ferm) == [a EXCEPT !.ent = {<<e[1], <<SwapChargeSign(a, e[1], G, q, ferm) * e[2][1], SwapChargeSign(a, e[1], G, q, ferm) * e[2][2]>> >> : e \in a.ent}]
+
+(* ------------------------------- ncon ---------------------------------- *)
+(* ORDER-FREE definition of a network value (C05): ts = tensors (conjugations already applied), inds[i][j] = label of logical leg j  *)
+(* of tensor i (positive = contracted pair, non-positive -k = k-th outgoing leg), swaps = sequence of <<x, y>> label pairs.            *)
+(*   value(out labels) = SUM over assignments of elements, one per tensor, that agree on every contracted label, of                    *)
+(*                       PROD values * PROD_{<<x,y>> in swaps} (-1)^(SUM_c ferm[c] par_c(x) par_c(y))                                  *)
+(* All legs of the operands are unfused here (logical = native).                                                                       *)
+Occ(inds, x) == {p \in (1..Len(inds)) \X (1..8) : p[2] <= Len(inds[p[1]]) /\ inds[p[1]][p[2]] = x}
+AllLabels(inds) == UNION {RangeOf(inds[i]) : i \in 1..Len(inds)}
+LabelOf(asg, inds, x) == LET p == CHOOSE p \in Occ(inds, x) : TRUE IN asg[p[1]][1][p[2]]
+Consistent(asg, inds) == \A x \in {y \in AllLabels(inds) : y > 0} : \A p, q \in Occ(inds, x) : asg[p[1]][1][p[2]] = asg[q[1]][1][q[2]]
+NSwapSign(asg, inds, swaps, ferm, nsym) ==
+    LET bits == {<<j, c>> \in (1..Len(swaps)) \X (1..nsym) : ferm[c] /\ LabelOf(asg, inds, swaps[j][1])[1][c] % 2 = 1 /\ LabelOf(asg, inds, swaps[j][2])[1][c] % 2 = 1}
+    IN IF Cardinality(bits) % 2 = 0 THEN 1 ELSE -1
+Assignments(ts) == CASE Len(ts) = 1 -> {<<e1>> : e1 \in ts[1].ent}
+                     [] Len(ts) = 2 -> {<<e1, e2>> : e1 \in ts[1].ent, e2 \in ts[2].ent}
+                     [] Len(ts) = 3 -> {<<e1, e2, e3>> : e1 \in ts[1].ent, e2 \in ts[2].ent, e3 \in ts[3].ent}
+                     [] Len(ts) = 4 -> {<<e1, e2, e3, e4>> : e1 \in ts[1].ent, e2 \in ts[2].ent, e3 \in ts[3].ent, e4 \in ts[4].ent}
+RECURSIVE CProd(_, _)
+CProd(asg, k) == IF k = 0 THEN <<1, 0>> ELSE CMul(CProd(asg, k - 1), asg[k][2])
+NOut(inds) == Cardinality({x \in AllLabels(inds) : x <= 0})
+OutPos(inds, k) == CHOOSE p \in Occ(inds, -(k - 1)) : TRUE                 \* where the k-th outgoing leg lives
+PreNcon(ts, inds) == /\ Len(ts) = Len(inds) /\ \A i \in 1..Len(ts) : Len(inds[i]) = NRank(ts[i]) /\ LRank(ts[i]) = NRank(ts[i])
+                     /\ \A x \in AllLabels(inds) : IF x > 0 THEN Cardinality(Occ(inds, x)) = 2 ELSE Cardinality(Occ(inds, x)) = 1
+                     /\ {x \in AllLabels(inds) : x <= 0} = {-(k - 1) : k \in 1..NOut(inds)}
+                     /\ \A x \in {y \in AllLabels(inds) : y > 0} : \A p, q \in Occ(inds, x) : p # q => ts[p[1]].s[p[2]] = -ts[q[1]].s[q[2]]
+Ncon(ts, inds, swaps, ferm) ==
+    LET good == {asg \in Assignments(ts) : Consistent(asg, inds)}
+        no == NOut(inds)
+        key(asg) == [k \in 1..no |-> asg[OutPos(inds, k)[1]][1][OutPos(inds, k)[2]]]
+        val(asg) == LET sg == NSwapSign(asg, inds, swaps, ferm, Len(Mod(ts[1].sym))) v == CProd(asg, Len(ts)) IN <<sg * v[1], sg * v[2]>>
+        keys == {key(asg) : asg \in good}
+    IN [sym |-> ts[1].sym,
+        s |-> [k \in 1..no |-> ts[OutPos(inds, k)[1]].s[OutPos(inds, k)[2]]],
+        n |-> Add(Mod(ts[1].sym), [i \in 1..Len(ts) |-> ts[i].n], [i \in 1..Len(ts) |-> 1], 1),
+        legs |-> [k \in 1..no |-> ts[OutPos(inds, k)[1]].legs[OutPos(inds, k)[2]]],
+        grp |-> [k \in 1..no |-> Leaf],
+        ent |-> {e \in {<<k, CSum({asg \in good : key(asg) = k}, val)>> : k \in keys} : e[2] # CZ},
+        dg |-> FALSE]
+
 (* ------------------------- observational equality ---------------------- *)
 (* what an observation of a result must satisfy w.r.t. the reference r (legs of r are the maximal admissible sector sets) *)
 LegsWithin(obs, r) == \A k \in 1..NRank(r) : SecSet(obs.legs[k]) \subseteq SecSet(r.legs[k])
